@@ -42,6 +42,9 @@ type step struct {
 type script struct {
 	ID    string `json:"id"`
 	Steps []step `json:"steps"`
+	// configuration of the node and input class of Create (Subject.tla: cfg)
+	Methods []string `json:"methods,omitempty"` // enabled DID methods in preferred order; default web, nuts
+	Naming  string   `json:"naming,omitempty"`  // given (SubjectCreationOption) | generated (no option) | legacy (NutsLegacyNamingOption); default given
 }
 
 type input struct {
@@ -126,9 +129,13 @@ func (w *world) snapshot(subjects []string) snap {
 	sn.Log = int(n)
 	for _, s := range subjects {
 		var ss subjSnap
-		dids, err := w.obs.ListDIDs(w.ctx, s)
-		if err != nil && !errors.Is(err, didsubject.ErrSubjectNotFound) {
-			panic(fmt.Sprintf("ListDIDs: %v", err))
+		var dids []did.DID
+		if name := w.r.realName(s); name != "" {
+			var err error
+			dids, err = w.obs.ListDIDs(w.ctx, name)
+			if err != nil && !errors.Is(err, didsubject.ErrSubjectNotFound) {
+				panic(fmt.Sprintf("ListDIDs: %v", err))
+			}
 		}
 		for _, id := range dids {
 			ds := didSnap{DID: id.String(), Method: id.Method, LatestSvc: "none"}
@@ -199,6 +206,15 @@ func last[T any](xs []T) (T, bool) {
 // projection of the state for trace validation (TraceSubject.tla compares it with the model state)
 func (sn snap) project(subjects []string) map[string]any {
 	st := map[string]any{}
+	// service / key count are projected from the did:web document when the subject has one, else from did:nuts
+	ref := "nuts"
+	for _, s := range subjects {
+		for _, d := range sn.Subjects[s].DIDs {
+			if d.Method == "web" {
+				ref = "web"
+			}
+		}
+	}
 	for _, s := range subjects {
 		ss := sn.Subjects[s]
 		p := map[string]any{"rows": len(ss.DIDs), "web": []int{}, "nuts": []int{}, "pub": 0, "svc": "none", "nkeys": 0}
@@ -211,7 +227,7 @@ func (sn snap) project(subjects []string) map[string]any {
 			if d.Method == "nuts" {
 				p["pub"] = d.PubCount
 			}
-			if d.Method == "web" {
+			if d.Method == ref {
 				p["svc"] = d.LatestSvc
 				p["nkeys"] = len(d.LatestVMs)
 			}
@@ -250,7 +266,132 @@ type runner struct {
 	sweepAbort  string // cause of the last aborted sweep ("" = none)
 	committed   map[string][]int // per DID: version list at the last quiescent point
 	didsOf      map[string]map[string]string // per subject: method -> DID once documents were committed
+	naming      string            // how Create names the subjects of this script
+	names       map[string]string // model subject -> the subject name the real Create gave it (generated / legacy naming)
+	creating    string              // model subject whose Create is in flight ("" = none) and the subject names before it
+	namesBefore map[string][]did.DID
 }
+
+// created is what a successful Create returned: the subject name and the DIDs of the documents
+type created struct {
+	name string
+	dids []string
+}
+
+// realName is the subject name of the real node for a subject of the model. With a given name that is the name itself;
+// a generated / legacy name is known from the last Create of the subject ("" = there is none yet).
+func (r *runner) realName(s string) string {
+	if r.naming == "given" {
+		return s
+	}
+	if r.creating == s {
+		// the Create has not returned (yet): the subject is known only through the list of subjects
+		if fresh := r.freshNames(); len(fresh) > 0 {
+			return fresh[0]
+		}
+		return ""
+	}
+	return r.names[s]
+}
+
+// freshNames: the subject names that appeared since the Create in flight started
+func (r *runner) freshNames() []string {
+	var fresh []string
+	for n := range r.subjectNames() {
+		if _, ok := r.namesBefore[n]; !ok {
+			fresh = append(fresh, n)
+		}
+	}
+	sort.Strings(fresh)
+	return fresh
+}
+
+// subjectNames lists every subject name the node knows (SqlManager.List) with its DIDs.
+func (r *runner) subjectNames() map[string][]did.DID {
+	all, err := r.w.obs.List(r.w.ctx)
+	if err != nil {
+		panic(fmt.Sprintf("List: %v", err))
+	}
+	return all
+}
+
+// ---- the statement "all its DIDs (one per enabled method)" / "a subject name maps to at most one set of DIDs" on the
+// result of a successful Create: the subject name Create returned owns exactly the DIDs of the returned documents, one
+// per enabled method
+func (r *runner) checkCreated(s string, c *created, site string) {
+	r.res.Checks++
+	listed, err := r.w.obs.ListDIDs(r.w.ctx, c.name)
+	if err != nil && !errors.Is(err, didsubject.ErrSubjectNotFound) {
+		panic(fmt.Sprintf("ListDIDs: %v", err))
+	}
+	own := map[string]bool{}
+	for _, id := range listed {
+		own[id.String()] = true
+	}
+	perMethod := map[string]int{}
+	for _, d := range c.dids {
+		if id, err := did.ParseDID(d); err == nil {
+			perMethod[id.Method]++
+		}
+		if !own[d] {
+			owner := "no subject"
+			for n, ids := range r.subjectNames() {
+				for _, id := range ids {
+					if id.String() == d {
+						owner = "subject " + shortName(n)
+					}
+				}
+			}
+			r.violate("created-did-not-owned-by-returned-subject", site, s, fmt.Sprintf("Create returned subject %s with the document of %s, but that DID belongs to %s", shortName(c.name), shortName(d), owner))
+		}
+	}
+	if len(listed) != len(c.dids) {
+		r.violate("created-subject-owns-other-dids", site, s, fmt.Sprintf("Create returned %d documents, subject %s lists %d DIDs", len(c.dids), shortName(c.name), len(listed)))
+	}
+	for _, m := range r.w.methods {
+		if perMethod[m] != 1 {
+			r.violate("created-not-one-did-per-enabled-method", site, s, fmt.Sprintf("Create returned %d documents of enabled method %s", perMethod[m], m))
+		}
+	}
+}
+
+// ---- every subject name the node knows has one set of DIDs: exactly one DID per enabled method (evaluated when no
+// operation is in flight: after a successful return and after a complete sweep)
+func (r *runner) checkDIDSets(site string) {
+	r.res.Checks++
+	all := r.subjectNames()
+	var names []string
+	for n := range all {
+		names = append(names, n)
+	}
+	sort.Strings(names)
+	for _, n := range names {
+		perMethod := map[string]int{}
+		for _, id := range all[n] {
+			perMethod[id.Method]++
+		}
+		model := ""
+		for _, s := range r.subjects {
+			if r.realName(s) == n {
+				model = s
+			}
+		}
+		for _, m := range r.w.methods {
+			if perMethod[m] == 0 {
+				r.violate("subject-lacks-did-of-enabled-method", site, model, fmt.Sprintf("subject %s has DIDs %v: none of enabled method %s", shortName(n), all[n], m))
+			}
+		}
+	}
+}
+
+func shortName(n string) string {
+	if len(n) > 24 {
+		return n[:24] + "…"
+	}
+	return n
+}
+
+
 
 func (w *world) logTx1(r *opRun, out string) {
 	r.tx1Logged = true
@@ -313,30 +454,53 @@ func (r *runner) site(s string, ss subjSnap) string {
 	return strings.Join(out, "|")
 }
 
-func (r *runner) call(op, s string) error {
+func (r *runner) call(op, ms string) (*created, error) {
 	w := r.w
+	if op == "create" {
+		opts := didsubject.DefaultCreationOptions()
+		switch r.naming {
+		case "given":
+			opts = opts.With(didsubject.SubjectCreationOption{Subject: ms})
+		case "legacy":
+			opts = opts.With(didsubject.NutsLegacyNamingOption{})
+		case "generated":
+		default:
+			panic("unknown naming " + r.naming)
+		}
+		docs, name, err := w.mgr.Create(w.ctx, opts)
+		if err != nil {
+			return nil, err
+		}
+		c := &created{name: name}
+		for _, d := range docs {
+			c.dids = append(c.dids, d.ID.String())
+		}
+		return c, nil
+	}
+	// the subject name a client of the node would use: the one Create returned
+	s := r.realName(ms)
+	if s == "" {
+		s = "never-created-" + ms
+	}
 	switch op {
-	case "create":
-		_, _, err := w.mgr.Create(w.ctx, didsubject.DefaultCreationOptions().With(didsubject.SubjectCreationOption{Subject: s}))
-		return err
 	case "addSvc":
 		_, err := w.mgr.CreateService(w.ctx, s, svcA)
-		return err
+		return nil, err
 	case "updSvc":
 		_, err := w.mgr.UpdateService(w.ctx, s, ssi.URI{URL: urlWithFragment(didsubject.NewIDForService(svcA))}, svcA2)
-		return err
+		return nil, err
 	case "delSvc":
 		typ := "tA"
 		frag := "none"
 		if svcs, err := w.obs.FindServices(w.ctx, s, &typ); err == nil && len(svcs) > 0 {
 			frag = svcs[0].ID.Fragment
 		}
-		return w.mgr.DeleteService(w.ctx, s, ssi.URI{URL: urlWithFragment(frag)})
+		return nil, w.mgr.DeleteService(w.ctx, s, ssi.URI{URL: urlWithFragment(frag)})
 	case "addKey":
 		_, err := w.mgr.AddVerificationMethod(w.ctx, s, orm.AssertionKeyUsage())
-		return err
+		return nil, err
 	case "deactivate":
-		return w.mgr.Deactivate(w.ctx, s)
+		return nil, w.mgr.Deactivate(w.ctx, s)
 	}
 	panic("unknown op " + op)
 }
@@ -368,14 +532,29 @@ func (r *runner) doOp(st step) (orderMiss bool) {
 	run := &opRun{stopAfter: st.Stop, op: st.Op, subject: st.S}
 	w.cur = run
 	var err error
+	var made *created
 	outc := ""
+	if st.Op == "create" && r.naming != "given" {
+		r.creating, r.namesBefore = st.S, r.subjectNames()
+	}
 	stopped := func() (rec any) {
 		defer func() { rec = recover() }()
-		err = r.call(st.Op, st.S)
+		made, err = r.call(st.Op, st.S)
 		return nil
 	}()
 	w.cur = nil
 	w.net.outcome = "ok"
+	if r.creating != "" {
+		if made != nil {
+			r.names[st.S] = made.name
+		} else if fresh := r.freshNames(); stopped != nil && len(fresh) > 0 {
+			// the Create never returned: the subject is known to its client only through the list of subjects
+			r.names[st.S] = fresh[0]
+		} else {
+			delete(r.names, st.S)
+		}
+		r.creating, r.namesBefore = "", nil
+	}
 	if stopped != nil {
 		if _, ok := stopped.(stopSentinel); !ok {
 			panic(stopped)
@@ -411,7 +590,7 @@ func (r *runner) doOp(st step) (orderMiss bool) {
 			ms = append(ms, c.Method)
 		}
 		r.res.Orders = append(r.res.Orders, fmt.Sprintf("%s:%d:%s", st.Op, st.Stop, strings.Join(ms, ",")))
-		if st.Stop == 1 && len(st.Order) == 2 && run.commits[0].Method != st.Order[0] {
+		if st.Stop == 1 && len(st.Order) == 2 && len(w.methods) == 2 && run.commits[0].Method != st.Order[0] {
 			orderMiss = true
 		}
 	}
@@ -490,6 +669,10 @@ func (r *runner) doOp(st step) (orderMiss bool) {
 		if post.Log != pre.Log {
 			r.violate("log-left-after-success", r.site(st.S, postSS), st.S, fmt.Sprintf("%s returned nil; change-log rows before=%d after=%d", st.Op, pre.Log, post.Log))
 		}
+		if made != nil {
+			r.checkCreated(st.S, made, r.site(st.S, postSS))
+		}
+		r.checkDIDSets(r.site(st.S, postSS))
 		if st.Op == "create" && len(postSS.DIDs) > 0 && postSS.hasDocs() {
 			r.rememberDIDs(st.S, postSS)
 		}
@@ -585,6 +768,7 @@ func (r *runner) quiescent() {
 	if sn.Log != 0 {
 		r.violate("log-left-after-sweep", anySite, "", fmt.Sprintf("%d change-log rows remain after a sweep that considered all of them", sn.Log))
 	}
+	r.checkDIDSets(anySite)
 	// resolve the fate of every operation
 	exists := map[string]bool{}
 	var ids []string
@@ -728,10 +912,20 @@ func shortKey(k string) string {
 
 func runScript(t *testing.T, base string, n int, in input, sc script) (res result) {
 	res = result{ID: sc.ID, Violations: []violation{}, Drift: []string{}}
-	w := newWorld(t, base, n)
+	methods, naming := sc.Methods, sc.Naming
+	if len(methods) == 0 {
+		methods = []string{"web", "nuts"}
+	}
+	if naming == "" {
+		naming = "given"
+	}
+	r := &runner{in: in, subjects: in.Subjects, res: &res, opOnPending: map[string]bool{}, concOnPending: map[string]bool{}, committed: map[string][]int{}, didsOf: map[string]map[string]string{},
+		naming: naming, names: map[string]string{}}
+	w := newWorld(t, base, n, methods)
 	defer w.close()
-	r := &runner{w: w, in: in, subjects: in.Subjects, res: &res, opOnPending: map[string]bool{}, concOnPending: map[string]bool{}, committed: map[string][]int{}, didsOf: map[string]map[string]string{}}
+	r.w = w
 	w.r = r
+	res.Trace = append(res.Trace, map[string]any{"ev": "config", "methods": methods, "naming": naming})
 	defer func() {
 		if rec := recover(); rec != nil {
 			res.Error = fmt.Sprintf("driver panic at step %d: %v", r.stepNo, rec)
